@@ -166,6 +166,11 @@ impl TaskLogWriter {
                     Err(_) => return Err(()),
                 }
             }
+            // The range returned below is published in an output frame: make sure the bytes are
+            // in the file before anyone can follow it (tokio completes writes in the background).
+            if self.file.flush().await.is_err() {
+                return Err(());
+            }
             self.bytes_stored = self.bytes_stored.saturating_add(take as u64);
         }
         if (take as u64) < chunk.len() as u64 {
@@ -269,6 +274,20 @@ pub(super) fn read_artifact_range(
         .read(&mut buf)
         .map_err(|err| format!("read artifact failed: {err}"))?;
     buf.truncate(read_bytes);
+
+    // A page that stops inside a multi-byte character ends before it (unless nothing would be
+    // left), so that following the returned `bytes` reproduces the text exactly.
+    if offset_bytes + (read_bytes as u64) < total_bytes {
+        let mut end = buf.len();
+        while end > 0
+            && matches!(std::str::from_utf8(&buf[..end]), Err(err) if err.error_len().is_none())
+        {
+            end -= 1;
+        }
+        if end > 0 {
+            buf.truncate(end);
+        }
+    }
 
     let (content, utf8_truncated, used_bytes) = truncate_utf8(&buf, max_bytes);
     let truncated = utf8_truncated || (offset_bytes + read_bytes as u64) < total_bytes;
